@@ -9,7 +9,7 @@ correspondence: the SAME generic model instantiated with Coq's exact rationals (
 search: property oracle in exact rational arithmetic (Python fractions) against the real functions.
 
 The model is the code AS REPAIRED (fixes/C17-*.patch): no `assert len(x) <= 2`, probe segment extended
-by a tenth of the ordinate extent.  On the unrepaired tree both defects are reported with a concrete,
+by a tenth of max(|min y|, |max y|) instead of a tenth of max y (negative for negative ordinates).  On the unrepaired tree both defects are reported with a concrete,
 shrunk input.
 """
 import math
@@ -193,6 +193,9 @@ def oracle_dc(vu, case, res=None):
         return dict(base, clause="raises", exception=res["err"], input_class=cls), \
             "calculate_design_conditions raises %s (up to %d hits of one vertical line with the polygon edges)" % (res["err"], worst), info
     rows = res["rows"]
+    if ymin == 0 and ymax == 0:
+        info["flat_on_axis"] = True   # outside the hypothesis of the theorems (degenerate probe segment)
+        return None, None, info
     k = 0
     delicate_margin = Fr(1, 10 ** 7) * scale
     for i, x2 in enumerate(absc):
@@ -552,7 +555,7 @@ def run(ctx):
     dc_or = [oracle_dc(vu, c, r) for c, r in zip(dc_cases, dc_res)]
     ix_or = [oracle_ix(vi, c, r) for c, r in zip(ix_cases, ix_res)]
 
-    dist, hits_hist, unj = {}, {}, 0
+    dist, hits_hist, unj, flat = {}, {}, 0, 0
     for c, r, (s, m, info) in zip(dc_cases, dc_res, dc_or):
         st = c["steps"]
         k = "dc/%s/steps=%s%s" % (c["kind"], "None" if st is None else ("int" if isinstance(st, int) else "list"), "/err:" + r["err"] if "err" in r else "")
@@ -561,6 +564,7 @@ def run(ctx):
             hk = str(h) if h < 5 else "5+"
             hits_hist[hk] = hits_hist.get(hk, 0) + 1
         unj += info["unjudgeable_abscissae"]
+        flat += 1 if info.get("flat_on_axis") else 0
         ctx.count(("dc", c["coords"], str(st), c["swap"]), any(h >= 2 for h in info["hits"]))
     ix_delicate = 0
     ix_hits = {}
@@ -574,6 +578,7 @@ def run(ctx):
     ctx.notes["crossings_per_abscissa"] = hits_hist
     ctx.notes["crossings_per_polyline_pair"] = ix_hits
     ctx.notes["unjudgeable"] = {"abscissae_tangent_or_within_1e-7_of_a_vertex_or_steep_edge": unj,
+                                "polygons_flat_on_the_axis": flat,
                                 "polyline_pairs_not_in_general_position": ix_delicate}
     ctx.notes["sizes"] = {"polygon_vertices_max": max(len(c["coords"]) for c in dc_cases),
                           "polyline_vertices_max": max(max(len(c["c1"]), len(c["c2"])) for c in ix_cases)}
@@ -582,17 +587,17 @@ def run(ctx):
     ctx.sample({"case": ix_cases[0], "implementation": ix_res[0]})
 
     # ---- correspondence: Q instance of the model vs the implementation
-    shard = 80
-    items, index = [], []
+    # shards are filled round-robin so that the expensive cases (180-vertex contours) are spread evenly
     allc = [("dc", i) for i in range(len(dc_cases))] + [("ix", i) for i in range(len(ix_cases))]
-    for s in range(0, len(allc), shard):
-        lines = []
-        for kind, i in allc[s:s + shard]:
-            lines.append(coq_dc(dc_cases[i], dc_res[i]) if kind == "dc" else coq_ix(ix_cases[i], ix_res[i]))
+    nshards = max(16, -(-len(allc) // 60))
+    items, index = [], []
+    for s in range(nshards):
+        part = allc[s::nshards]
+        lines = [coq_dc(dc_cases[i], dc_res[i]) if kind == "dc" else coq_ix(ix_cases[i], ix_res[i]) for kind, i in part]
         body = PRELUDE + "Definition results : list Z := [\n" + ";\n".join(lines) + "].\nEval vm_compute in results.\n"
-        items.append(("cases_%d" % (s // shard), body))
-        index.append(allc[s:s + shard])
-    outs = ctx.coq_eval_many(items, jobs=12)
+        items.append(("cases_%d" % s, body))
+        index.append(part)
+    outs = ctx.coq_eval_many(items, jobs=16)
     ncmp, nmis, nskip = 0, 0, 0
     suspects_dc, suspects_ix = [], []
     names = {1: "number of rows", 2: "a value (> 1e-9 of the scale)", 3: "implementation raised, model returns a result"}
@@ -605,7 +610,7 @@ def run(ctx):
             if code == 0:
                 continue
             if kind == "dc":
-                judge = dc_or[i][2]["unjudgeable_abscissae"] == 0
+                judge = dc_or[i][2]["unjudgeable_abscissae"] == 0 and not dc_or[i][2].get("flat_on_axis")
                 if not judge and code != 3:
                     nskip += 1
                     continue
@@ -658,6 +663,6 @@ def run(ctx):
                                "harness tools/harness/c17.py (generators, float -> exact rational literals, tolerance 1e-9 of the coordinate scale)",
                                "numpy.linalg.solve as an oracle: returns the solution of the 4x4 system, LinAlgError iff singular (the model solves in closed form)",
                                "binary64 rounding of the implementation is not bounded by a theorem: compared to the exact model to 1e-9"]
-    ctx.assumptions += ["polygon not flat: min ordinate < max ordinate (hypothesis of the design-condition theorems)",
+    ctx.assumptions += ["polygon does not lie flat on the axis: min ordinate < max ordinate or max ordinate <> 0 (hypothesis of the design-condition theorems)",
                         "general position for completeness clauses: crossing segments are not parallel; ordinates on vertical edges are not counted as crossings",
                         "abscissae touching a vertex tangentially, within 1e-7 of a vertex, or on edges steeper than 1e5 are not judged (float decision may differ from the exact one)"]
